@@ -14,9 +14,9 @@ def hostsOf : List Line → List Name
   | _ :: ls       => hostsOf ls
 
 theorem countHosts_spec (ls : List Line) (acc res : List (Name × Nat))
-    (ha : (acc.map (·.1)).Nodup) (h : countHosts ls acc = some res) :
-    (res.map (·.1)).Nodup
-    ∧ (∀ n, n ∈ res.map (·.1) ↔ n ∈ acc.map (·.1) ∨ n ∈ hostsOf ls) := by
+    (ha : (acc.map Prod.fst).Nodup) (h : countHosts ls acc = some res) :
+    (res.map Prod.fst).Nodup
+    ∧ (∀ n, n ∈ res.map Prod.fst ↔ n ∈ acc.map Prod.fst ∨ n ∈ hostsOf ls) := by
   induction ls generalizing acc with
   | nil =>
     simp only [countHosts, Option.some.injEq] at h
@@ -30,13 +30,13 @@ theorem countHosts_spec (ls : List Line) (acc res : List (Name × Nat))
       unfold countHosts at h
       by_cases hin : acc.any (fun e => e.1 = n) = true
       · rw [if_pos hin] at h
-        have hm : (acc.map (fun e => if e.1 = n then (e.1, e.2 + 1) else e)).map (·.1) = acc.map (·.1) := by
+        have hm : (acc.map (fun e => if e.1 = n then (e.1, e.2 + 1) else e)).map Prod.fst = acc.map Prod.fst := by
           rw [map_map]; apply map_congr_left; intro e _; by_cases he : e.1 = n <;> simp [he]
         have ⟨r1, r2⟩ := ih _ (by rw [hm]; exact ha) h
         refine ⟨r1, fun x => ?_⟩
         rw [r2 x, hm]
         simp only [hostsOf, mem_cons]
-        have hn : n ∈ acc.map (·.1) := by
+        have hn : n ∈ acc.map Prod.fst := by
           obtain ⟨e, he, hen⟩ := any_eq_true.mp hin
           exact mem_map.mpr ⟨e, he, by simpa using hen⟩
         constructor
@@ -48,11 +48,11 @@ theorem countHosts_spec (ls : List Line) (acc res : List (Name × Nat))
           · exact Or.inl (h1 ▸ hn)
           · exact Or.inr h1
       · rw [if_neg hin] at h
-        have hn : n ∉ acc.map (·.1) := by
+        have hn : n ∉ acc.map Prod.fst := by
           intro hc
           obtain ⟨e, he, hen⟩ := mem_map.mp hc
           exact hin (any_eq_true.mpr ⟨e, he, by simpa using hen⟩)
-        have ha' : ((acc ++ [(n, 1)]).map (·.1)).Nodup := by
+        have ha' : ((acc ++ [(n, 1)]).map Prod.fst).Nodup := by
           rw [map_append, nodup_append]
           refine ⟨ha, by simp, ?_⟩
           intro a ha1 b hb
@@ -62,24 +62,24 @@ theorem countHosts_spec (ls : List Line) (acc res : List (Name × Nat))
         have ⟨r1, r2⟩ := ih _ ha' h
         refine ⟨r1, fun x => ?_⟩
         rw [r2 x]
-        simp only [map_append, map_cons, map_nil, mem_append, mem_singleton, hostsOf, mem_cons]
+        simp only [map_append, map_cons, map_nil, mem_append, hostsOf, mem_cons]
         constructor
         · rintro ((h1 | h1) | h1)
           · exact Or.inl h1
-          · exact Or.inr (Or.inl h1)
+          · exact Or.inr (Or.inl (by simpa using h1))
           · exact Or.inr (Or.inr h1)
         · rintro (h1 | h1 | h1)
           · exact Or.inl (Or.inl h1)
-          · exact Or.inl (Or.inr h1)
+          · exact Or.inl (Or.inr (by simpa using h1))
           · exact Or.inr h1
 
 /-- **one entry per allocated host**: the parsed node file names every host of
     the file exactly once (repeated lines are counted, not repeated), whatever
     the `cpn`/`smt` arguments; blank lines are not hosts -/
 theorem C18_parse (ls : List Line) (cpn smt : Nat) :
-    ((parseNodefile ls cpn smt).map (·.1)).Nodup
-    ∧ (∀ n, n ∈ (parseNodefile ls cpn smt).map (·.1) → n ∈ hostsOf ls)
-    ∧ (Line.bad ∉ ls → ∀ n, n ∈ hostsOf ls → n ∈ (parseNodefile ls cpn smt).map (·.1)) := by
+    ((parseNodefile ls cpn smt).map Prod.fst).Nodup
+    ∧ (∀ n, n ∈ (parseNodefile ls cpn smt).map Prod.fst → n ∈ hostsOf ls)
+    ∧ (Line.bad ∉ ls → ∀ n, n ∈ hostsOf ls → n ∈ (parseNodefile ls cpn smt).map Prod.fst) := by
   unfold parseNodefile
   cases h : countHosts ls [] with
   | none =>
@@ -100,8 +100,8 @@ theorem C18_parse (ls : List Line) (cpn smt : Nat) :
     exact absurd h (this ls [] hb)
   | some acc =>
     have ⟨r1, r2⟩ := countHosts_spec ls [] acc (by simp) h
-    have hm : (acc.map (fun e => (e.1, (if cpn ≠ 0 then cpn else e.2) * (if smt = 0 then 1 else smt)))).map (·.1)
-        = acc.map (·.1) := by rw [map_map]; rfl
+    have hm : (acc.map (fun e => (e.1, (if cpn ≠ 0 then cpn else e.2) * (if smt = 0 then 1 else smt)))).map Prod.fst
+        = acc.map Prod.fst := by rw [map_map]; rfl
     simp only [hm]
     exact ⟨r1, fun n hn => by simpa using (r2 n).mp hn, fun _ n hn => (r2 n).mpr (Or.inr hn)⟩
 
@@ -118,8 +118,8 @@ theorem C18_parse_cpn (ls : List Line) (cpn smt : Nat) (hc : cpn ≠ 0) :
 
 theorem nodeListFrom_spec (nodes : List (Name × Nat)) (gpn start : Nat) :
     (nodeListFrom nodes gpn start).map (·.index) = (List.range nodes.length).map (· + start)
-    ∧ (nodeListFrom nodes gpn start).map (·.name) = nodes.map (·.1)
-    ∧ (nodeListFrom nodes gpn start).map (fun n => n.cores.length) = nodes.map (·.2)
+    ∧ (nodeListFrom nodes gpn start).map (·.name) = nodes.map Prod.fst
+    ∧ (nodeListFrom nodes gpn start).map (fun n => n.cores.length) = nodes.map Prod.snd
     ∧ ∀ n ∈ nodeListFrom nodes gpn start, n.gpus.length = gpn
         ∧ (∀ o ∈ n.cores, o = .free) ∧ (∀ o ∈ n.gpus, o = .free) := by
   induction nodes generalizing start with
@@ -144,8 +144,8 @@ theorem nodeListFrom_spec (nodes : List (Name × Nat)) (gpn start : Nat) :
 theorem C18_node_list (nodes : List (Name × Nat)) (gpn : Nat) :
     ((getNodeList nodes gpn).map (·.index)) = List.range nodes.length
     ∧ ((getNodeList nodes gpn).map (·.index)).Nodup
-    ∧ (getNodeList nodes gpn).map (·.name) = nodes.map (·.1)
-    ∧ (getNodeList nodes gpn).map (fun n => n.cores.length) = nodes.map (·.2)
+    ∧ (getNodeList nodes gpn).map (·.name) = nodes.map Prod.fst
+    ∧ (getNodeList nodes gpn).map (fun n => n.cores.length) = nodes.map Prod.snd
     ∧ ∀ n ∈ getNodeList nodes gpn, n.gpus.length = gpn := by
   have ⟨i1, i2, i3, i4⟩ := nodeListFrom_spec nodes gpn 0
   have h1 : (getNodeList nodes gpn).map (·.index) = List.range nodes.length := by
@@ -197,7 +197,14 @@ theorem popN_spec (l : List Node) (k : Nat) (hk : k ≤ l.length) :
     for, its indices are unique, it shares no node with the agent / service
     lists, and the three lists together are exactly the first `requestedNodes`
     usable nodes -/
-theorem C18_final (c : Cfg) (nodes : List Node) (cpn : Nat) (reach : List Bool) (info : Info)
+theorem reachable_sublist (c : Cfg) (nodes : List Node) (reach : List Nat) :
+    (reachable c nodes reach).Sublist nodes := by
+  unfold reachable
+  split
+  · exact filter_sublist
+  · exact Sublist.refl _
+
+theorem C18_final (c : Cfg) (nodes : List Node) (cpn : Nat) (reach : List Nat) (info : Info)
     (hidx : (nodes.map (·.index)).Nodup) (h : finish c nodes cpn reach = .ok info) :
     info.nodeList ≠ []
     ∧ info.nodeList.length + info.agentNodes.length + info.serviceNodes.length ≤ info.requestedNodes
@@ -212,19 +219,10 @@ theorem C18_final (c : Cfg) (nodes : List Node) (cpn : Nat) (reach : List Bool) 
   · cases h
   split at h
   · cases h
-  simp only at h
-  -- name the intermediate values
-  generalize hn1 : (nodes.map (fun n => { n with cores := markDown n.cores c.blockedCores,
-                                    gpus := markDown n.gpus c.blockedGpus })) = nodes1 at h
-  generalize hrn : (if c.requestedNodes ≠ 0 then c.requestedNodes
-         else if (if c.blockedCores ≠ [] ∨ c.blockedGpus ≠ [] then cpn - c.blockedCores.length else cpn) = 0 then 0
-         else max ((c.requestedCores + (if c.blockedCores ≠ [] ∨ c.blockedGpus ≠ [] then cpn - c.blockedCores.length else cpn) - 1) / (if c.blockedCores ≠ [] ∨ c.blockedGpus ≠ [] then cpn - c.blockedCores.length else cpn))
-                  (if (if c.blockedCores ≠ [] ∨ c.blockedGpus ≠ [] then c.gpn - c.blockedGpus.length else c.gpn) ≠ 0 then (c.requestedGpus + (if c.blockedCores ≠ [] ∨ c.blockedGpus ≠ [] then c.gpn - c.blockedGpus.length else c.gpn) - 1) / (if c.blockedCores ≠ [] ∨ c.blockedGpus ≠ [] then c.gpn - c.blockedGpus.length else c.gpn) else 0)) = rn at h
   split at h
   · cases h
-  generalize hok : (if c.backup ≠ 0 then (nodes1.zip (reach ++ List.replicate nodes1.length false)).filterMap
-                                     (fun p => if p.2 then some p.1 else none)
-             else nodes1) = ok at h
+  split at h
+  · cases h
   split at h
   · cases h
   split at h
@@ -232,65 +230,49 @@ theorem C18_final (c : Cfg) (nodes : List Node) (cpn : Nat) (reach : List Bool) 
   split at h
   · cases h
   rename_i hlen hrn0
-  rcases hp1 : popN (ok.take rn) c.agentNodes with ⟨rest, ag⟩
-  rw [hp1] at h
-  simp only at h
-  rcases hp2 : popN rest c.serviceNodes with ⟨rest2, sv⟩
-  rw [hp2] at h
-  simp only at h
   cases h
   simp only
-  have hcut : c.agentNodes + c.serviceNodes < (ok.take rn).length := by omega
-  have ⟨a1, a2⟩ := popN_spec (ok.take rn) c.agentNodes (by omega)
-  rw [hp1] at a1 a2
-  simp only at a1 a2
-  have hrest : rest.length = (ok.take rn).length - c.agentNodes := by
+  generalize hcut : (reachable c (blockNodes c nodes) reach).take (reqNodes c cpn) = cut at *
+  have hcl : c.agentNodes + c.serviceNodes < cut.length := by omega
+  have ⟨a1, a2⟩ := popN_spec cut c.agentNodes (by omega)
+  generalize hp1 : popN cut c.agentNodes = p1 at *
+  obtain ⟨rest, ag⟩ := p1
+  simp only at a1 a2 ⊢
+  have hrest : rest.length = cut.length - c.agentNodes := by
     have := congrArg length a1
     simp only [length_append, length_reverse] at this
     omega
   have ⟨s1, s2⟩ := popN_spec rest c.serviceNodes (by omega)
-  rw [hp2] at s1 s2
-  simp only at s1 s2
+  generalize hp2 : popN rest c.serviceNodes = p2 at *
+  obtain ⟨rest2, sv⟩ := p2
+  simp only at s1 s2 ⊢
   have hrest2 : rest2.length = rest.length - c.serviceNodes := by
     have := congrArg length s1
     simp only [length_append, length_reverse] at this
     omega
-  have hall : rest2 ++ sv.reverse ++ ag.reverse = ok.take rn := by rw [s1, a1]
-  -- ok is a sublist of nodes1
-  have hsub : ok.Sublist nodes1 := by
-    rw [← hok]
-    split
-    · -- filterMap over the zip with reachability flags
-      have : ∀ (l : List Node) (r : List Bool),
-          ((l.zip r).filterMap (fun p => if p.2 then some p.1 else none)).Sublist l := by
-        intro l
-        induction l with
-        | nil => intro r; simp
-        | cons x xs ih =>
-          intro r
-          cases r with
-          | nil => simp
-          | cons b bs =>
-            simp only [zip_cons_cons, filterMap_cons]
-            cases b
-            · simpa using (ih bs).cons x
-            · simpa using (ih bs).cons₂ x
-      exact this _ _
-    · exact Sublist.refl _
-  have hsub2 : (ok.take rn).Sublist nodes1 := (take_sublist rn ok).trans hsub
-  have hidx1 : (nodes1.map (·.index)).Nodup := by
-    rw [← hn1, map_map]
-    have : ((fun n : Node => n.index) ∘ fun n : Node =>
-        { n with cores := markDown n.cores c.blockedCores, gpus := markDown n.gpus c.blockedGpus })
-        = fun n => n.index := rfl
-    rw [this]; exact hidx
-  have hidx2 : ((ok.take rn).map (·.index)).Nodup := (hsub2.map _).nodup hidx1
-  have hnd : (ok.take rn).Nodup := Nodup.of_map _ hidx2
+  have hall : rest2 ++ sv.reverse ++ ag.reverse = cut := by rw [s1, a1]
+  have hsub2 : cut.Sublist (blockNodes c nodes) := by
+    rw [← hcut]; exact (take_sublist _ _).trans (reachable_sublist c _ reach)
+  have hidx1 : ((blockNodes c nodes).map (·.index)).Nodup := by
+    unfold blockNodes
+    rw [map_map]
+    exact hidx
+  have hidx2 : (cut.map (·.index)).Nodup := (hsub2.map _).nodup hidx1
+  have hnd : cut.Nodup := by
+    have : ∀ (l : List Node), (l.map (·.index)).Nodup → l.Nodup := by
+      intro l
+      induction l with
+      | nil => intro _; exact nodup_nil
+      | cons x xs ih =>
+        intro hl
+        simp only [map_cons, nodup_cons, mem_map, not_exists, not_and] at hl
+        exact nodup_cons.mpr ⟨fun hx => hl.1 x hx rfl, ih hl.2⟩
+    exact this cut hidx2
   refine ⟨?_, ?_, a2, s2, by rw [hall]; exact hidx2, ?_, ?_⟩
   · intro e
     have : rest2.length = 0 := by rw [e]; rfl
     omega
-  · have : (ok.take rn).length ≤ rn := length_take_le rn ok
+  · have : cut.length ≤ reqNodes c cpn := by rw [← hcut]; exact length_take_le _ _
     omega
   · intro n hn
     rw [← hall] at hnd
@@ -302,12 +284,15 @@ theorem C18_final (c : Cfg) (nodes : List Node) (cpn : Nat) (reach : List Bool) 
     · intro hs
       exact h2.2.2 n hn n (mem_reverse.mpr hs) rfl
   · intro n hn
-    have hmem : n ∈ ok.take rn := by
+    have hmem : n ∈ cut := by
       rw [← hall]
       simp only [mem_append, mem_reverse] at hn ⊢
-      tauto
-    have : n ∈ nodes1 := hsub2.subset hmem
-    rw [← hn1] at this
+      rcases hn with (h | h) | h
+      · exact Or.inl (Or.inl h)
+      · exact Or.inr h
+      · exact Or.inl (Or.inr h)
+    have : n ∈ blockNodes c nodes := hsub2.subset hmem
+    unfold blockNodes at this
     obtain ⟨m, hm, rfl⟩ := mem_map.mp this
     exact ⟨m, hm, rfl, rfl, rfl, rfl⟩
 
